@@ -24,6 +24,8 @@ Inductive sprog : Type :=
 | SSub (w : swrap) (p : sprog)
 | SMap (f : fmap)
 | SCheck (want_map : bool)
+| SId
+| SMulti (id : N) (c : cspec) (alts : list sprog)
 | SLoop (id : N) (c : lspec) (body : sprog) (fuel : nat).
 
 Definition compile_handler (h : option (N * nspec)) : option (N * node val val) :=
@@ -42,6 +44,8 @@ Fixpoint compile_sprog (p : sprog) : prog :=
   | SSub w p => PSub (compile_wrap w) (compile_sprog p)
   | SMap f => PMap f
   | SCheck m => PCheck m
+  | SId => PId
+  | SMulti id c alts => PMulti id (mcond_of_spec c) (map compile_sprog alts)
   | SLoop id c body fuel => PLoop id (loop_cond_of_spec c) (compile_sprog body) fuel
   end.
 
@@ -67,6 +71,8 @@ Fixpoint sprog_wf (p : sprog) : bool :=
   | SSub w p => swrap_wf w && sprog_wf p
   | SMap f => fmap_wf f
   | SCheck _ => true
+  | SId => true
+  | SMulti _ _ alts => forallb sprog_wf alts
   | SLoop _ _ body _ => sprog_wf body
   end.
 
@@ -129,3 +135,12 @@ Definition loop_prog : sprog :=
                 (SNode sw_none 2 (spec_simple 0 "n2" 0 0 false true false false 3 false)))
           22)
        (SNode sw_none 3 (spec_simple 0 "n3" 0 0 true false false false 0 false)).
+
+(* a multi-branch: on the input "ab" (size 2, mask 1 + 2 mod 7 = 3) the stream condition
+   selects alternatives 0 and 1 of three *)
+Definition multi_prog : sprog :=
+  SSeq (SMulti 9 {| cs_collect := true; cs_n := 3; cs_fail := false |}
+          [SNode (sw_outkey 0) 1 (spec_simple 0 "n1" 0 0 false true false false 1 false);
+           SNode (sw_outkey 1) 2 (spec_simple 0 "n2" 0 0 false false false true 3 true);
+           SNode (sw_outkey 2) 3 (spec_simple 0 "n3" 0 0 true false false false 0 false)])
+       (SNode sw_none 4 (spec_simple 1 "n4" 0 0 false false true false 0 false)).
